@@ -381,7 +381,8 @@ LedLoop(keys, pref, post, ai, out, aion) ==
        ELSE LedLoop(ln[3], <<>>, IF aion THEN SubSeq(post, LeadBlanks(post) + 1, Len(post)) ELSE post, ai3, out1, aion)
 LedInput(keys, pref0, post, aion) ==
     LET n == LeadBlanks(pref0) IN
-    LedLoop(keys, SubSeq(pref0, n + 1, Len(pref0)), post, SubSeq(pref0, 1, Min2(n, 127)), <<>>, aion)
+    (* the first 127 leading blanks are the indent; any further ones stay in front of the text *)
+    LedLoop(keys, SubSeq(pref0, Min2(n, 127) + 1, Len(pref0)), post, SubSeq(pref0, 1, Min2(n, 127)), <<>>, aion)
 (* vi_input(): <<text, rows, off>>: number of lines of the text and the offset of the last typed character *)
 CountNL(t) == Cardinality({i \in 1..Len(t) : t[i] = NL})
 InputPos(text, post) ==
